@@ -667,6 +667,9 @@ def check_categories_are_bound_once(ctx, tag="C20.9"):
                     n += 1
                     if f.name == "__init_subclass__":
                         continue
+                    if f.cls is not None and f.params and isinstance(t.value, ast.Name) and t.value.id == f.params[0] and f.cls.name not in ("AbstractDtype", "_MetaAbstractDtype") \
+                            and not any(getattr(b_, "name", None) in ("AbstractDtype", "_MetaAbstractDtype") for b_ in m.mro(f.cls)):
+                        continue  # a field called `dtypes` of some other object (a record passed between the constructors): not a category
                     bad = True
                     ctx.bad(tag, f, st, f"`{short(st, 60)}` re-binds the dtypes of a category at run time (outside `__init_subclass__`): annotations snapshot them when they are created, "
                             "the reducer replays the subscription against the category as it is *then*, so an annotation made before this runs and its pickle round trip made after it "
